@@ -125,6 +125,14 @@ func runTracker(c *Case) ([]Obs, any) {
 				tip = next
 				next++
 				return Obs{OK}
+			case "setinsync": // the node leaves / regains sync (block inventory, reorg header): blocks processed meanwhile
+				// still confirm their transactions
+				if op.Int(0) != 0 {
+					st.SetInSync()
+				} else {
+					st.ClearInSync()
+				}
+				return Obs{OK}
 			case "advance":
 				d := time.Duration(op.Int(0)) * time.Millisecond
 				f.node.VerifMemPool().VerifAge(d)
